@@ -4,6 +4,7 @@ import GModel.Pipeline
 import GModel.RdfNames
 import GModel.Fft
 import GModel.CacheName
+import GModel.OccLabels
 /-! line-protocol operation: the whole per-atom chain (C07) -/
 namespace G.Ops10
 open G G.Ops G.Pipeline
@@ -38,5 +39,14 @@ def opCacheName : Rd String := do
   let h ← tok
   pure ("ok " ++ ".".intercalate (CacheName.cacheName file tmpl h))
 
-def table : List (String × Rd String) := [("pipe", opPipe), ("rdfnames", opRdfNames), ("cacorr", opCAcorr), ("cachename", opCacheName)]
+/-- `bylabel n labels… m states… nFrames nFloat` → `label atom_location occupancy_by_site_type` per label, in order of first occurrence -/
+def opByLabel : Rd String := do
+  let labels ← rdList tok
+  let states ← rdList rdInt
+  let nFrames ← rdNat
+  let nFloat ← rdNat
+  pure ("ok " ++ " ".intercalate ((OccLabels.labelKeys labels).map (fun a =>
+    s!"{a} {showRat (OccLabels.atomLocation labels states nFrames nFloat a)} {showRat (OccLabels.occByType labels states nFrames a)}")))
+
+def table : List (String × Rd String) := [("pipe", opPipe), ("rdfnames", opRdfNames), ("cacorr", opCAcorr), ("cachename", opCacheName), ("bylabel", opByLabel)]
 end G.Ops10
